@@ -37,6 +37,10 @@ PREDS = {
     "umul": ("{qa} * {ub}", "benign(exc) or (isq(r) and r.unit.dimension is da * db)"),
     "udiv": ("{qa} / {ub}", "benign(exc) or (isq(r) and r.unit.dimension is da / db)"),
     "neg": ("-{qa}", "isq(r) and r.unit is A.unit and dec(r) == dec(A)"),
+    # a bare unit on the LEFT of a quantity: either unsupported (TypeError) or a quantity of the product / quotient dimension
+    "urmul": ("{ua} * {qb}", "isinstance(exc, TypeError) or benign(exc) or (isq(r) and r.unit.dimension is eval({ua!r}, globals()).dimension * db)"),
+    "urdiv": ("{ua} / {qb}", "isinstance(exc, TypeError) or benign(exc) or (isq(r) and r.unit.dimension is eval({ua!r}, globals()).dimension / db)"),
+    "abs": ("abs({qa})", "isq(r) and r.unit is A.unit and dec(r) == dec(A)"),
 }
 
 
